@@ -1075,9 +1075,8 @@ def run(ctx):
     ctx.tlc('graders/MC_ResultPipeline.tla', 'graders/MC_ResultPipeline_item_%s_repaired.cfg' % ctx.tier, timeout=3000,
             deadlock=True)
     if not ctx.quick:
-        for part in ('single', 'list'):
-            ctx.tlc('graders/MC_ResultPipeline.tla', 'graders/MC_ResultPipeline_%s_thorough_repaired.cfg' % part,
-                    timeout=3000, deadlock=True)
+        ctx.tlc('graders/MC_ResultPipeline.tla', 'graders/MC_ResultPipeline_list_thorough_repaired.cfg',
+                timeout=3000, deadlock=True)
     ctx.tlc('graders/MC_ResultPipeline.tla', 'graders/MC_ResultPipeline_live.cfg', timeout=1200, deadlock=True)
 
     # ---- spec -> code
